@@ -1,4 +1,4 @@
-(* C19 -- bounded binary64 statement, chunk 4 of 16 (computed): for the intervals
+(* C19 -- bounded binary64 statement, chunk 4 of 4 (computed): for the intervals
    FloatGridDefs.chunk 3 and every n = 1..2000 the break points of the repaired make_knots
    pass NpF.bp_ok. *)
 From Coq Require Import QArith List Arith Bool.
